@@ -4,7 +4,7 @@ set -u
 seed=$1; shift
 sc=$(mktemp -d /tmp/seedtry.XXXXXX)
 rsync -a --exclude .git /repo/ $sc/
-if ! (cd $sc && patch -p1 -s --no-backup-if-mismatch < /verif/seeded/$seed/patch.diff); then echo "PATCH-FAILED $seed"; rm -rf $sc; exit 3; fi
+if ! (cd $sc && patch -p1 -s --no-backup-if-mismatch < $( [ -f /verif/seeded/$seed/patch.current.diff ] && echo /verif/seeded/$seed/patch.current.diff || echo /verif/seeded/$seed/patch.diff )); then echo "PATCH-FAILED $seed"; rm -rf $sc; exit 3; fi
 props="$@"
 [ -z "$props" ] && props=$(echo $seed | cut -d- -f1)
 rc=0
